@@ -58,6 +58,36 @@ def roland_image(level, names):
     return R.build_roland(model)[0], k
 
 
+def roland_orphan_image(level, names, with_volume):
+    """the same names below the pseudo volume that collects performances no volume references ('_Orphan_perf' next to
+    real volumes, 'All Performances' on a disk without volumes)"""
+    lvl = level.split("-")[0]
+    img_model = None
+    k = len(names)
+    if lvl == "sample":
+        samples = {i: {"name": nm, "chain": [2 + i], "points": [0, 0, 11, 0, 11], "mode": 2, "seq": i + 1} for i, nm in enumerate(names)}
+        img_model = {"volumes": [], "performances": {0: {"name": "PERF", "patches": [0]}},
+                     "patches": {0: {"name": "PATCH", "partials": [0]}}, "partials": {0: {"name": "PART", "samples": list(range(k))}},
+                     "samples": samples}
+    else:
+        img_model = {"volumes": [], "performances": {}, "patches": {}, "partials": {}, "samples": {}}
+        for i, nm in enumerate(names):
+            img_model["performances"][i] = {"name": nm, "patches": [i]}
+            img_model["patches"][i] = {"name": f"PATCH{i}", "partials": [i]}
+            img_model["partials"][i] = {"name": f"PART{i}", "samples": [i]}
+            img_model["samples"][i] = {"name": "SMP", "chain": [2 + i], "points": [0, 0, 11, 0, 11], "mode": 2, "seq": i + 1}
+    if with_volume:
+        # a real volume with its own performance, so that the others are orphans
+        n = max(img_model["performances"]) + 1
+        img_model["volumes"] = [{"name": "REAL", "perfs": [n]}]
+        img_model["performances"][n] = {"name": "OWNED", "patches": [n]}
+        img_model["patches"][n] = {"name": "PATCHX", "partials": [n]}
+        img_model["partials"][n] = {"name": "PARTX", "samples": [max(img_model["samples"]) + 1]}
+        img_model["samples"][max(img_model["samples"]) + 1] = {"name": "OWN", "chain": [40], "points": [0, 0, 11, 0, 11], "mode": 2, "seq": 9}
+    img_model["pad"] = "\0"
+    return R.build_roland(img_model)[0], k
+
+
 def snapshot(root, skip):
     out = set()
     for dp, dn, fn in os.walk(root):
@@ -113,6 +143,9 @@ def run_case(case):
             src = io.BytesIO(akai_files_image(names)[0])
         elif kind == "akai_dirs":
             src = io.BytesIO(akai_dirs_image(names)[0])
+        elif kind.startswith("roland_orphan"):
+            names = [n.replace(absname, "/dev/shm/zq%x" % (os.getpid() % 16)) for n in names]
+            src = io.BytesIO(roland_orphan_image(kind.split("_")[2], names, kind.split("_")[1] == "orphan")[0])
         elif kind.startswith("roland_"):
             names = [n.replace(absname, "/dev/shm/zq%x" % (os.getpid() % 16)) for n in names]
             src = io.BytesIO(roland_image(kind.split("_")[1], names)[0])
@@ -178,7 +211,8 @@ class Check(CheckBase):
     rule = ("all ordered pairs (quick) / triples (thorough) of names over: 21 AKAI file names and 14 AKAI volume names "
             "(punctuation, blanks, dots, names equal after sanitising, L/R forms); 25 hostile ASCII names (separators, "
             "'..', absolute path into the watched area, quotes, control and non-ASCII characters, '(2)' forms, empty stems) as "
-            "Roland sample / performance / volume names and as cue TITLEs; export into <scratch>/w/deep/dest with the "
+            "Roland sample / performance / volume names (also below the pseudo volume that collects orphan performances, with and "
+            "without real volumes on the disk) and as cue TITLEs; export into <scratch>/w/deep/dest with the "
             "parents watched; singles, doubled names and neighbouring (thorough: all) pairs again on an image object whose root "
             "and first-level items were listed before the export. Oracle: nothing created outside dest; Exported lines pairwise distinct and as many as files; "
             "every component non-empty, [\\w -.#()] only, begins with \\w, does not end in space or dot. non-trivial = two "
@@ -222,6 +256,14 @@ class Check(CheckBase):
         if not self.quick:
             for t in itertools.product(rhost[:12], repeat=3):
                 rol.append({"kind": "roland_sample", "names": list(t)})
+        # below the pseudo volume of orphan performances (with and without real volumes on the disk)
+        for kind in ("roland_orphan_sample", "roland_orphan_performance", "roland_orphanonly_sample", "roland_orphanonly_performance"):
+            for t in tuples(rhost, 2 if not self.quick else 1):
+                if any(len(x.replace(ABS, "/dev/shm/zq0")) > 16 for x in t):
+                    continue
+                rol.append({"kind": kind, "names": t})
+                if len(t) == 1:
+                    rol.append({"kind": kind, "names": t + t})
         # destination spellings (relative, ./x/, with .., not yet existing nested directory)
         for dest in ("rel", "dot", "nested"):
             for t in (["A", "A"], ["A L", "A R"], ["..", "A."]):
